@@ -152,9 +152,7 @@ Qed.
 
 (* ---------------------------------------------------------------- the cluster invariant *)
 Section Safety.
-  Variable cfg : config.
-  Let V := voters cfg.
-  Let q := quorum_size cfg.
+  Variable cfgs : list config.
 
   Definition Gof (g : gstate) (j : N) : list (N * N) :=
     flat_map (fun x => match x with (j', T, c) => if j' =? j then [(T, c)] else [] end) (g_grants g).
@@ -168,8 +166,8 @@ Section Safety.
   Qed.
 
   (* a witness of c votes for (T, i): distinct voters that granted it *)
-  Definition tally (g : gstate) (T i : N) (W : list N) : Prop :=
-    NoDup W /\ incl W V /\ forall w, In w W -> In (w, T, i) (g_grants g).
+  Definition tally (c : config) (g : gstate) (T i : N) (W : list N) : Prop :=
+    NoDup W /\ incl W (voters c) /\ forall w, In w W -> In (w, T, i) (g_grants g).
 
   Definition node_ok (g : gstate) (n : gnode) : Prop :=
     wfr (gn_run n) /\ inv_grants (gn_run n) (Gof g (gn_id n)) /\ functional (Gof g (gn_id n)).
@@ -178,11 +176,11 @@ Section Safety.
     match gn_sess n with
     | None => True
     | Some se =>
-      exists s, gn_run n = Up s /\
+      exists c s, In c cfgs /\ gn_run n = Up s /\
         v_term s = vq_term (se_req se) /\ vq_addr (se_req se) = gn_id n /\
-        c_voting (se_c se) = true /\ c_needed (se_c se) = q /\
-        incl (se_asked se) V /\ ~ In (gn_id n) (se_asked se) /\ se_epoch se < gn_next n /\
-        exists W, tally g (vq_term (se_req se)) (gn_id n) W /\
+        c_voting (se_c se) = true /\ c_needed (se_c se) = quorum_size c /\
+        incl (se_asked se) (voters c) /\ ~ In (gn_id n) (se_asked se) /\ se_epoch se < gn_next n /\
+        exists W, tally c g (vq_term (se_req se)) (gn_id n) W /\
                   N.of_nat (length W) = c_granted (se_c se) /\ incl W (gn_id n :: se_got se)
     end.
 
@@ -197,7 +195,7 @@ Section Safety.
     resp_grant g rp /\ forall n, In n (g_nodes g) -> resp_node n rp.
 
   Definition leader_ok (g : gstate) (x : N * N) : Prop :=
-    exists W, tally g (fst x) (snd x) W /\ q <= N.of_nat (length W).
+    exists c W, In c cfgs /\ tally c g (fst x) (snd x) W /\ quorum_size c <= N.of_nat (length W).
 
   Record ginv (g : gstate) : Prop := {
     gi_ids : NoDup (map gn_id (g_nodes g));
@@ -251,7 +249,7 @@ Section Safety.
     destruct (N.eqb_spec i j); [congruence|]. simpl. apply IH. intros x Hin. apply Hx. right. exact Hin.
   Qed.
 
-  Lemma tally_mono g g' T i W : incl (g_grants g) (g_grants g') -> tally g T i W -> tally g' T i W.
+  Lemma tally_mono c g g' T i W : incl (g_grants g) (g_grants g') -> tally c g T i W -> tally c g' T i W.
   Proof. intros Hi (A & B & C). repeat split; auto. Qed.
 End Safety.
 
@@ -358,20 +356,18 @@ Qed.
 
 (* ---------------------------------------------------------------- replacing one node *)
 Section Preserve.
-  Variable cfg : config.
-  Let V := voters cfg.
-  Let q := quorum_size cfg.
+  Variable cfgs : list config.
 
   Lemma ginv_update g g' i n n' extra :
-    ginv cfg g -> find_node (g_nodes g) i = Some n -> gn_id n' = i ->
+    ginv cfgs g -> find_node (g_nodes g) i = Some n -> gn_id n' = i ->
     g_nodes g' = upd_node (g_nodes g) i n' ->
     g_grants g' = extra ++ g_grants g -> (forall x, In x extra -> fst (fst x) = i) ->
-    node_ok g' n' -> sess_ok cfg g' n' ->
+    node_ok g' n' -> sess_ok cfgs g' n' ->
     (forall rp, In rp (g_resps g') ->
        resp_node n' rp /\
        (In rp (g_resps g) \/ (resp_grant g' rp /\ forall m, In m (g_nodes g) -> gn_id m <> i -> resp_node m rp))) ->
-    (forall x, In x (g_leaders g') -> In x (g_leaders g) \/ leader_ok cfg g' x) ->
-    ginv cfg g'.
+    (forall x, In x (g_leaders g') -> In x (g_leaders g) \/ leader_ok cfgs g' x) ->
+    ginv cfgs g'.
   Proof.
     intros [Hids Hnodes Hresps Hleaders Hgids] Hfind Hid' Hn' Hg' Hextra Hnok Hsok Hrs Hls.
     destruct (find_node_in _ _ _ Hfind) as [Hin Hidn].
@@ -382,15 +378,15 @@ Section Preserve.
       destruct (Hnodes m Hm') as [(A & B & C) Hs]. split.
       + unfold node_ok. rewrite (Gof_other g g' extra i (gn_id m) Hg' Hextra Hne). auto.
       + unfold sess_ok in *. destruct (gn_sess m) as [se|]; [|exact I].
-        destruct Hs as (s & E1 & E2 & E3 & E4 & E5 & E6 & E7 & E8 & W & HW & HL & HI).
-        exists s. repeat split; auto. exists W. split; [eapply tally_mono; eassumption|auto].
+        destruct Hs as (c & s & Hc & E1 & E2 & E3 & E4 & E5 & E6 & E7 & E8 & W & HW & HL & HI).
+        exists c, s. repeat split; auto. exists W. split; [eapply tally_mono; eassumption|auto].
     - intros rp Hrp. destruct (Hrs rp Hrp) as [Hnew [Hold|[Hgr Hoth]]].
       + destruct (Hresps rp Hold) as [Hgr Hall]. split; [intros Hg; apply Hmono, Hgr, Hg|].
         intros m Hm. rewrite Hn' in Hm. destruct (upd_node_in _ _ _ _ Hm) as [[-> _]|[Hm' _]]; [exact Hnew|apply Hall, Hm'].
       + split; [exact Hgr|]. intros m Hm. rewrite Hn' in Hm.
         destruct (upd_node_in _ _ _ _ Hm) as [[-> _]|[Hm' Hne]]; [exact Hnew|apply Hoth; assumption].
     - intros x Hx. destruct (Hls x Hx) as [Hold|Hnew]; [|exact Hnew].
-      destruct (Hleaders x Hold) as (W & HW & HQ). exists W. split; [eapply tally_mono; eassumption|exact HQ].
+      destruct (Hleaders x Hold) as (c & W & Hc & HW & HQ). exists c, W. split; [exact Hc|]. split; [eapply tally_mono; eassumption|exact HQ].
     - intros w T c Hw. rewrite Hg' in Hw. apply in_app_iff in Hw. rewrite Hn'.
       assert (Hi : exists m, In m (upd_node (g_nodes g) i n') /\ gn_id m = i).
       { exists n'. split; [|exact Hid']. unfold upd_node. apply in_map_iff. exists n. rewrite Hidn, N.eqb_refl. auto. }
@@ -447,9 +443,7 @@ Proof.
 Qed.
 
 Section Steps.
-  Variable cfg : config.
-  Let V := voters cfg.
-  Let q := quorum_size cfg.
+  Variable cfgs : list config.
 
   Lemma grant_ghost_gof j ob :
     flat_map (fun x : N * N * N => match x with (j', T, c) => if j' =? j then [(T, c)] else [] end) (grant_ghost j ob) = ob_grant ob.
@@ -462,22 +456,22 @@ Section Steps.
 
   (* a handler runs at j (a vote request of some invocation, or any other input) *)
   Lemma handler_case g j nj e cut fs r' ob out rs :
-    ginv cfg g -> find_node (g_nodes g) j = Some nj -> e <> NElect ->
+    ginv cfgs g -> find_node (g_nodes g) j = Some nj -> e <> NElect ->
     step_full (gn_P nj) (gn_run nj) e cut fs = (r', ob, out) ->
     (forall rp, In rp rs ->
        rp_cand rp <> j /\
        resp_grant (mkG (g_nodes g) (g_resps g) (g_leaders g) (grant_ghost j ob ++ g_grants g)) rp /\
        forall m, In m (g_nodes g) -> resp_node m rp) ->
-    ginv cfg (mkG (upd_node (g_nodes g) j (mkGN (gn_P nj) r' (keep_sess r' (gn_sess nj)) (gn_next nj)))
+    ginv cfgs (mkG (upd_node (g_nodes g) j (mkGN (gn_P nj) r' (keep_sess r' (gn_sess nj)) (gn_next nj)))
                   (g_resps g ++ rs) (g_leaders g) (grant_ghost j ob ++ g_grants g)).
   Proof.
     intros Hinv Hfind Hne Hstep Hrs.
     destruct (find_node_in _ _ _ Hfind) as [Hin Hid].
-    pose proof (gi_nodes cfg g Hinv nj Hin) as [(Hw & Hig & Hfun) Hs].
+    pose proof (gi_nodes cfgs g Hinv nj Hin) as [(Hw & Hig & Hfun) Hs].
     pose proof (node_step_inv (gn_P nj) (gn_run nj) e cut fs _ Hw Hig Hfun) as Hni. rewrite Hstep in Hni.
     destruct Hni as (Hw' & Hig' & Hfun' & _).
     set (g' := mkG _ _ _ _).
-    eapply (ginv_update cfg g g' j nj _ (grant_ghost j ob)); try reflexivity; try exact Hinv; try exact Hfind.
+    eapply (ginv_update cfgs g g' j nj _ (grant_ghost j ob)); try reflexivity; try exact Hinv; try exact Hfind.
     - exact Hid.
     - apply grant_ghost_ids.
     - unfold node_ok. change (gn_id (mkGN (gn_P nj) r' (keep_sess r' (gn_sess nj)) (gn_next nj))) with (gn_id nj).
@@ -487,14 +481,14 @@ Section Steps.
       unfold keep_sess. destruct r' as [s'|s']; [|exact I].
       unfold sess_ok in Hs. destruct (gn_sess nj) as [se|]; [|exact I].
       destruct (N.eqb_spec (v_role s') Candidate) as [Hr|Hr]; [|exact I].
-      destruct Hs as (s & E1 & E2 & E3 & E4 & E5 & E6 & E7 & E8 & W & HW & HL & HI).
-      exists s'. split; [reflexivity|]. rewrite E1 in Hstep.
+      destruct Hs as (c & s & Hc & E1 & E2 & E3 & E4 & E5 & E6 & E7 & E8 & W & HW & HL & HI).
+      exists c, s'. split; [exact Hc|]. split; [reflexivity|]. rewrite E1 in Hstep.
       split; [rewrite <- E2; eapply step_keeps_term; eassumption|].
       repeat split; auto. exists W. split; [|auto].
       eapply tally_mono; [|exact HW]. apply incl_appr, incl_refl.
     - intros rp Hrp. cbn [g_resps] in Hrp. apply in_app_iff in Hrp. destruct Hrp as [Hold|Hnew].
       + split; [|left; exact Hold].
-        destruct (gi_resps cfg g Hinv rp Hold) as [_ Hall]. specialize (Hall nj Hin).
+        destruct (gi_resps cfgs g Hinv rp Hold) as [_ Hall]. specialize (Hall nj Hin).
         unfold resp_node in *. cbn [gn_sess gn_next].
         change (gn_id (mkGN (gn_P nj) r' (keep_sess r' (gn_sess nj)) (gn_next nj))) with (gn_id nj).
         intros Hc. destruct (Hall Hc) as [A B]. split; [exact A|].
@@ -509,9 +503,7 @@ Section Steps.
 End Steps.
 
 Section Steps2.
-  Variable cfg : config.
-  Let V := voters cfg.
-  Let q := quorum_size cfg.
+  Variable cfgs : list config.
 
   Lemma wfu_dproj s s' : wfu s -> dproj s' = dproj s -> v_term s' = v_term s -> wfu s'.
   Proof.
@@ -520,25 +512,25 @@ Section Steps2.
 
   (* the response of j is consumed by the invocation of i *)
   Lemma resp_case g i j n s se rp :
-    ginv cfg g -> find_node (g_nodes g) i = Some n -> gn_run n = Up s -> gn_sess n = Some se ->
+    ginv cfgs g -> find_node (g_nodes g) i = Some n -> gn_run n = Up s -> gn_sess n = Some se ->
     mem j (se_got se) = false -> find_resp (g_resps g) i (se_epoch se) j = Some rp ->
-    forall g', gstep cfg g (GVoteResp i j) = Some g' -> ginv cfg g'.
+    forall g', gstep cfgs g (GVoteResp i j) = Some g' -> ginv cfgs g'.
   Proof.
     intros Hinv Hfind Hrun Hsess Hgot Hfr g' Hstep.
     destruct (find_node_in _ _ _ Hfind) as [Hin Hid].
-    pose proof (gi_nodes cfg g Hinv n Hin) as [(Hw & Hig & Hfun) Hs].
+    pose proof (gi_nodes cfgs g Hinv n Hin) as [(Hw & Hig & Hfun) Hs].
     unfold sess_ok in Hs. rewrite Hsess in Hs.
-    destruct Hs as (s0 & E1 & E2 & E3 & E4 & E5 & E6 & E7 & E8 & W & (HWn & HWi & HWg) & HL & HI).
+    destruct Hs as (c & s0 & Hc & E1 & E2 & E3 & E4 & E5 & E6 & E7 & E8 & W & (HWn & HWi & HWg) & HL & HI).
     rewrite Hrun in E1. inversion E1; subst s0. clear E1.
     rewrite Hrun in Hw, Hig. simpl in Hw.
     destruct (find_resp_in _ _ _ _ _ Hfr) as (Hrin & Hrc & Hre & Hrv).
-    destruct (gi_resps cfg g Hinv rp Hrin) as [Hrg Hrn].
+    destruct (gi_resps cfgs g Hinv rp Hrin) as [Hrg Hrn].
     destruct (Hrn n Hin (eq_trans Hid (eq_sym Hrc))) as [_ Hrse]. destruct (Hrse se Hsess Hre) as [Hrt Hra].
     rewrite Hrv in Hra.
     assert (Hji : j <> gn_id n) by (intros ->; contradiction).
     (* the tally after counting this response *)
     set (gnew := if rp_granted rp then c_granted (se_c se) + 1 else c_granted (se_c se)).
-    assert (HW' : exists W', tally cfg g (vq_term (se_req se)) (gn_id n) W' /\ N.of_nat (length W') = gnew /\ incl W' (gn_id n :: j :: se_got se)).
+    assert (HW' : exists W', tally c g (vq_term (se_req se)) (gn_id n) W' /\ N.of_nat (length W') = gnew /\ incl W' (gn_id n :: j :: se_got se)).
     { unfold gnew. destruct (rp_granted rp) eqn:Eg.
       - exists (j :: W). split; [|split].
         + split; [|split].
@@ -554,13 +546,13 @@ Section Steps2.
     destruct HW' as (W' & HT' & HL' & HI').
     (* unfold the step *)
     unfold gstep in Hstep. rewrite Hfind, Hrun, Hsess, Hgot, Hfr in Hstep.
-    pose proof (sess_vote_cases (gn_P n) s (se_c se) (mkVR (rp_term rp) (rp_granted rp)) E4) as Hc.
+    pose proof (sess_vote_cases (gn_P n) s (se_c se) (mkVR (rp_term rp) (rp_granted rp)) E4) as Hcs.
     destruct (sess_step (gn_P n) false (SCand s (se_c se)) (CVote (mkVR (rp_term rp) (rp_granted rp)))) as [x tr].
-    simpl fst in Hc. cbn [vr_term vr_granted] in Hc. fold gnew in Hc.
+    simpl fst in Hcs. cbn [vr_term vr_granted] in Hcs. fold gnew in Hcs.
     destruct (N.ltb_spec (v_term s) (rp_term rp)) as [Hlt|Hge].
     - (* a higher term: back to follower *)
       subst x. inversion Hstep; subst g'. clear Hstep.
-      eapply (ginv_update cfg g _ i n _ []); try reflexivity; try exact Hinv; try exact Hfind.
+      eapply (ginv_update cfgs g _ i n _ []); try reflexivity; try exact Hinv; try exact Hfind.
       + exact Hid.
       + intros x [].
       + unfold node_ok. cbn [gn_run gn_P]. change (gn_id (mkGN (gn_P n) _ None (gn_next n))) with (gn_id n).
@@ -569,13 +561,13 @@ Section Steps2.
         * simpl. unfold wfu, wfd. simpl. lia.
         * eapply inv_grants_term_up; [exact Hig|]. simpl. lia.
       + intros rp0 Hrp0. split; [|left; exact Hrp0].
-        destruct (gi_resps cfg g Hinv rp0 Hrp0) as [_ Hall]. specialize (Hall n Hin).
+        destruct (gi_resps cfgs g Hinv rp0 Hrp0) as [_ Hall]. specialize (Hall n Hin).
         unfold resp_node in *. intros Hc'. destruct (Hall Hc') as [A _]. split; [exact A|]. intros se0 Hse0. discriminate.
       + intros x Hx. left. exact Hx.
-    - fold q in E5. rewrite E5 in Hc. destruct (N.leb_spec q gnew) as [Hq|Hq].
+    - rewrite E5 in Hcs. destruct (N.leb_spec (quorum_size c) gnew) as [Hq|Hq].
       + (* elected *)
         subst x. inversion Hstep; subst g'. clear Hstep.
-        eapply (ginv_update cfg g _ i n _ []); try reflexivity; try exact Hinv; try exact Hfind.
+        eapply (ginv_update cfgs g _ i n _ []); try reflexivity; try exact Hinv; try exact Hfind.
         * exact Hid.
         * intros x [].
         * unfold node_ok. cbn [gn_run].
@@ -584,22 +576,22 @@ Section Steps2.
           -- simpl. eapply wfu_dproj; [exact Hw|rewrite Bd; reflexivity|rewrite Bv; reflexivity].
           -- eapply inv_grants_dproj; [|exact Hig]. simpl. rewrite Bd. reflexivity.
         * intros rp0 Hrp0. split; [|left; exact Hrp0].
-          destruct (gi_resps cfg g Hinv rp0 Hrp0) as [_ Hall]. specialize (Hall n Hin).
+          destruct (gi_resps cfgs g Hinv rp0 Hrp0) as [_ Hall]. specialize (Hall n Hin).
           unfold resp_node in *. intros Hc'. destruct (Hall Hc') as [A _]. split; [exact A|]. intros se0 Hse0. discriminate.
-        * intros x [<-|Hx]; [|left; exact Hx]. right. exists W'. simpl fst; simpl snd.
+        * intros x [<-|Hx]; [|left; exact Hx]. right. unfold leader_ok. simpl fst; simpl snd.
           change (v_term (set_transfer (set_leader (set_state s Leader) (p_self (gn_P n)) (p_self (gn_P n))) false)) with (v_term s).
-          rewrite E2, <- Hid. split; [exact HT'|]. fold q. rewrite HL'. exact Hq.
+          rewrite E2, <- Hid. exists c, W'. split; [exact Hc|]. split; [exact HT'|]. rewrite HL'. exact Hq.
       + (* keep counting *)
         subst x. inversion Hstep; subst g'. clear Hstep.
-        eapply (ginv_update cfg g _ i n _ []); try reflexivity; try exact Hinv; try exact Hfind.
+        eapply (ginv_update cfgs g _ i n _ []); try reflexivity; try exact Hinv; try exact Hfind.
         * exact Hid.
         * intros x [].
         * unfold node_ok. cbn [gn_run]. rewrite <- Hrun. split; [rewrite Hrun; exact Hw|split; [rewrite Hrun; exact Hig|exact Hfun]].
         * unfold sess_ok. cbn [gn_sess gn_run gn_next se_req se_c se_asked se_epoch se_got c_voting c_needed c_granted].
           change (gn_id (mkGN (gn_P n) (Up s) _ (gn_next n))) with (gn_id n).
-          exists s. repeat split; auto. exists W'. repeat split; try apply HT'; auto.
+          exists c, s. repeat split; auto. exists W'. repeat split; try apply HT'; auto.
         * intros rp0 Hrp0. split; [|left; exact Hrp0].
-          destruct (gi_resps cfg g Hinv rp0 Hrp0) as [_ Hall]. specialize (Hall n Hin).
+          destruct (gi_resps cfgs g Hinv rp0 Hrp0) as [_ Hall]. specialize (Hall n Hin).
           unfold resp_node in *. cbn [gn_sess gn_next].
           change (gn_id (mkGN (gn_P n) (Up s) _ (gn_next n))) with (gn_id n).
           intros Hc'. destruct (Hall Hc') as [A B]. split; [exact A|]. intros se0 Hse0 He0. inversion Hse0; subst se0. simpl in *. apply (B se Hsess He0).
@@ -608,33 +600,32 @@ Section Steps2.
 End Steps2.
 
 Section Steps3.
-  Variable cfg : config.
-  Let V := voters cfg.
-  Let q := quorum_size cfg.
+  Variable cfgs : list config.
 
   Lemma req_of_fields P s : vq_term (req_of P s) = v_term s /\ vq_addr (req_of P s) = p_self P.
   Proof. unfold req_of. destruct (last_entry s). auto. Qed.
 
   Lemma old_resp_after_enter g n rp x se' :
-    ginv cfg g -> In n (g_nodes g) -> In rp (g_resps g) ->
+    ginv cfgs g -> In n (g_nodes g) -> In rp (g_resps g) ->
     (forall se0, se' = Some se0 -> se_epoch se0 = gn_next n) ->
     resp_node (mkGN (gn_P n) x se' (gn_next n + 1)) rp.
   Proof.
-    intros Hinv Hin Hrp Hse. destruct (gi_resps cfg g Hinv rp Hrp) as [_ Hall]. specialize (Hall n Hin).
+    intros Hinv Hin Hrp Hse. destruct (gi_resps cfgs g Hinv rp Hrp) as [_ Hall]. specialize (Hall n Hin).
     unfold resp_node in *. change (gn_id (mkGN (gn_P n) x se' (gn_next n + 1))) with (gn_id n). cbn [gn_next gn_sess].
     intros Hc. destruct (Hall Hc) as [A _]. split; [lia|]. intros se0 E He. specialize (Hse se0 E). lia.
   Qed.
 
-  Lemma timeout_case g i g' : ginv cfg g -> gstep cfg g (GTimeout i) = Some g' -> ginv cfg g'.
+  Lemma timeout_case g i g' : ginv cfgs g -> gstep cfgs g (GTimeout i) = Some g' -> ginv cfgs g'.
   Proof.
     intros Hinv Hstep. unfold gstep in Hstep.
     destruct (find_node (g_nodes g) i) as [n|] eqn:Hfind; [|discriminate].
     destruct (find_node_in _ _ _ Hfind) as [Hin Hid].
     destruct (gn_run n) as [s|s] eqn:Hrun; [|discriminate].
-    destruct (config_eqb (v_latest s) cfg) eqn:Ecfg; [|discriminate]. cbn [negb orb] in Hstep.
+    destruct (existsb (config_eqb (v_latest s)) cfgs) eqn:Ecfg; [|discriminate]. cbn [negb orb] in Hstep.
     destruct (v_role s =? Leader); [discriminate|].
-    apply config_eqb_eq in Ecfg.
-    pose proof (gi_nodes cfg g Hinv n Hin) as [(Hw & Hig & Hfun) _]. rewrite Hrun in Hw, Hig. simpl in Hw.
+    apply existsb_exists in Ecfg. destruct Ecfg as (cfg & Hcfg & Ecfg). apply config_eqb_eq in Ecfg.
+    set (V := voters cfg). set (q := quorum_size cfg).
+    pose proof (gi_nodes cfgs g Hinv n Hin) as [(Hw & Hig & Hfun) _]. rewrite Hrun in Hw, Hig. simpl in Hw.
     set (s0 := match gn_sess n with Some _ => set_transfer s false | None => s end) in *.
     assert (Hw0 : wfu s0) by (unfold s0; destruct (gn_sess n); [eapply wfu_dproj; [exact Hw|reflexivity|reflexivity]|exact Hw]).
     assert (Hig0 : inv_grants (Up s0) (Gof g (gn_id n))).
@@ -650,7 +641,7 @@ Section Steps3.
       destruct (N.leb_spec q 1) as [Hq|Hq].
       + (* single voter: elected at once *)
         subst x. inversion Hstep; subst g'. clear Hstep.
-        eapply (ginv_update cfg g _ i n _ [(i, _, i)]); try reflexivity; try exact Hinv; try exact Hfind.
+        eapply (ginv_update cfgs g _ i n _ [(i, _, i)]); try reflexivity; try exact Hinv; try exact Hfind.
         * exact Hid.
         * intros y [<-|[]]. reflexivity.
         * unfold node_ok. cbn [gn_run]. change (gn_id (mkGN (gn_P n) _ None (gn_next n + 1))) with (gn_id n).
@@ -663,14 +654,14 @@ Section Steps3.
           -- simpl. eapply wfu_dproj; [apply (wfu_voted (gn_P n) s0 Hw0)|rewrite Bd; reflexivity|rewrite Bv; reflexivity].
           -- eapply inv_grants_dproj; [|exact Hiv]. simpl. rewrite Bd. reflexivity.
         * intros rp Hrp. split; [|left; exact Hrp]. eapply old_resp_after_enter; try eassumption. intros se0 E. discriminate.
-        * intros y [<-|Hy]; [|left; exact Hy]. right. exists [i]. simpl fst; simpl snd. split.
+        * intros y [<-|Hy]; [|left; exact Hy]. right. exists cfg, [i]. simpl fst; simpl snd. split; [exact Hcfg|]. split.
           -- split; [constructor; [intros []|constructor]|]. split; [intros y [<-|[]]; exact HiV|].
              intros w [<-|[]]. left. reflexivity.
           -- simpl. fold q. lia.
       + (* candidate with its own vote *)
         subst x. cbn [c_granted] in Hstep. change (1 <=? 1) with true in Hstep. cbn iota in Hstep.
         inversion Hstep; subst g'. clear Hstep.
-        eapply (ginv_update cfg g _ i n _ [(i, _, i)]); try reflexivity; try exact Hinv; try exact Hfind.
+        eapply (ginv_update cfgs g _ i n _ [(i, _, i)]); try reflexivity; try exact Hinv; try exact Hfind.
         * exact Hid.
         * intros y [<-|[]]. reflexivity.
         * unfold node_ok. cbn [gn_run]. change (gn_id (mkGN (gn_P n) _ _ (gn_next n + 1))) with (gn_id n).
@@ -684,7 +675,7 @@ Section Steps3.
           destruct (req_of_fields (gn_P n) (voted (gn_P n) s0)) as [Rt Ra].
           destruct (peers_incl (gn_P n) (voted (gn_P n) s0)) as [Pi Pn].
           change (v_latest (voted (gn_P n) s0)) with (v_latest s0) in Pi. rewrite Hl0 in Pi.
-          exists (voted (gn_P n) s0). split; [reflexivity|]. split; [symmetry; exact Rt|]. split; [rewrite Ra; reflexivity|].
+          exists cfg, (voted (gn_P n) s0). split; [exact Hcfg|]. split; [reflexivity|]. split; [symmetry; exact Rt|]. split; [rewrite Ra; reflexivity|].
           split; [reflexivity|]. split; [reflexivity|]. split; [exact Pi|]. split; [exact Pn|]. split; [lia|].
           exists [i]. split; [|split].
           -- split; [constructor; [intros []|constructor]|]. split; [intros y [<-|[]]; exact HiV|].
@@ -697,7 +688,7 @@ Section Steps3.
     - (* candidate that is not a voter: no vote of its own *)
       subst x. cbn [c_granted] in Hstep. change (1 <=? 0) with false in Hstep. cbn iota in Hstep.
       inversion Hstep; subst g'. clear Hstep.
-      eapply (ginv_update cfg g _ i n _ []); try reflexivity; try exact Hinv; try exact Hfind.
+      eapply (ginv_update cfgs g _ i n _ []); try reflexivity; try exact Hinv; try exact Hfind.
       + exact Hid.
       + intros y [].
       + unfold node_ok. cbn [gn_run]. change (gn_id (mkGN (gn_P n) _ _ (gn_next n + 1))) with (gn_id n).
@@ -709,7 +700,7 @@ Section Steps3.
         destruct (req_of_fields (gn_P n) (entered (gn_P n) s0)) as [Rt Ra].
         destruct (peers_incl (gn_P n) (entered (gn_P n) s0)) as [Pi Pn].
         change (v_latest (entered (gn_P n) s0)) with (v_latest s0) in Pi. rewrite Hl0 in Pi.
-        exists (entered (gn_P n) s0). split; [reflexivity|]. split; [symmetry; exact Rt|]. split; [rewrite Ra; reflexivity|].
+        exists cfg, (entered (gn_P n) s0). split; [exact Hcfg|]. split; [reflexivity|]. split; [symmetry; exact Rt|]. split; [rewrite Ra; reflexivity|].
         split; [reflexivity|]. split; [reflexivity|]. split; [exact Pi|]. split; [exact Pn|]. split; [lia|].
         exists []. split; [|split; [reflexivity|intros y []]].
         split; [constructor|]. split; intros y [].
@@ -720,9 +711,7 @@ Section Steps3.
 End Steps3.
 
 Section Main.
-  Variable cfg : config.
-  Let V := voters cfg.
-  Let q := quorum_size cfg.
+  Variable cfgs : list config.
 
   Lemma vote_obs_request P r qq cut fs r' q' t gr out :
     step_full P r (NVote qq) cut fs = (r', OVote q' t gr, out) -> q' = qq.
@@ -735,7 +724,7 @@ Section Main.
     - destruct (boot P _). intros H; inversion H.
   Qed.
 
-  Theorem gstep_inv g l g' : ginv cfg g -> gstep cfg g l = Some g' -> ginv cfg g'.
+  Theorem gstep_inv g l g' : ginv cfgs g -> gstep cfgs g l = Some g' -> ginv cfgs g'.
   Proof.
     intros Hinv Hstep. destruct l as [i|i j cut fs|i j|j e cut fs].
     - eapply timeout_case; eassumption.
@@ -747,10 +736,10 @@ Section Main.
       destruct (step_full (gn_P nj) (gn_run nj) (NVote (se_req se)) cut fs) as [[r' ob] out] eqn:Hsf.
       inversion Hstep; subst g'. clear Hstep.
       destruct (find_node_in _ _ _ Hfi) as [Hini Hidi].
-      pose proof (gi_nodes cfg g Hinv ni Hini) as [_ Hs]. unfold sess_ok in Hs. rewrite Hse in Hs.
-      destruct Hs as (s & E1 & E2 & E3 & E4 & E5 & E6 & E7 & E8 & _).
+      pose proof (gi_nodes cfgs g Hinv ni Hini) as [_ Hs]. unfold sess_ok in Hs. rewrite Hse in Hs.
+      destruct Hs as (c & s & _ & E1 & E2 & E3 & E4 & E5 & E6 & E7 & E8 & _).
       apply mem_true in Hmem.
-      eapply (handler_case cfg g j nj (NVote (se_req se)) cut fs r' ob out); try eassumption; [discriminate|].
+      eapply (handler_case cfgs g j nj (NVote (se_req se)) cut fs r' ob out); try eassumption; [discriminate|].
       intros rp Hrp. destruct ob as [q' t gr| | | | | |]; simpl in Hrp; try contradiction.
       destruct Hrp as [<-|[]]. cbn [rp_cand rp_granted rp_voter rp_reqterm rp_epoch].
       apply vote_obs_request in Hsf as Hq'. subst q'.
@@ -758,7 +747,7 @@ Section Main.
       + unfold resp_grant. cbn [rp_cand rp_granted rp_voter rp_reqterm g_grants]. intros ->. simpl.
         left. rewrite E3, Hidi. reflexivity.
       + intros m Hm. unfold resp_node. cbn [rp_cand rp_epoch rp_reqterm rp_voter]. intros Hc.
-        assert (m = ni) by (eapply nodup_id_eq; [apply (gi_ids cfg g Hinv)|exact Hm|exact Hini|congruence]). subst m.
+        assert (m = ni) by (eapply nodup_id_eq; [apply (gi_ids cfgs g Hinv)|exact Hm|exact Hini|congruence]). subst m.
         split; [exact E8|]. intros se0 Hse0 _. rewrite Hse in Hse0. inversion Hse0; subst se0. auto.
     - unfold gstep in Hstep.
       destruct (find_node (g_nodes g) i) as [n|] eqn:Hfi; [|discriminate].
@@ -766,7 +755,7 @@ Section Main.
       destruct (gn_sess n) as [se|] eqn:Hse; [|discriminate].
       destruct (mem j (se_got se)) eqn:Hgot; [discriminate|].
       destruct (find_resp (g_resps g) i (se_epoch se) j) as [rp|] eqn:Hfr; [|discriminate].
-      eapply (resp_case cfg g i j n s se rp); try eassumption.
+      eapply (resp_case cfgs g i j n s se rp); try eassumption.
       unfold gstep. rewrite Hfi, Hrun, Hse, Hgot, Hfr. exact Hstep.
     - unfold gstep in Hstep.
       assert (Hne : e <> NElect /\ e <> NTimeoutDecision) by (destruct e; try discriminate; split; discriminate).
@@ -775,15 +764,15 @@ Section Main.
       assert (Hg' : g' = mkG (upd_node (g_nodes g) j (mkGN (gn_P nj) r' (keep_sess r' (gn_sess nj)) (gn_next nj)))
                              (g_resps g ++ []) (g_leaders g) (grant_ghost j ob ++ g_grants g)).
       { rewrite app_nil_r. destruct e; try (inversion Hstep; reflexivity); destruct Hne; contradiction. }
-      subst g'. eapply (handler_case cfg g j nj e cut fs r' ob out); try eassumption; [apply Hne|].
+      subst g'. eapply (handler_case cfgs g j nj e cut fs r' ob out); try eassumption; [apply Hne|].
       intros rp [].
   Qed.
 
-  Theorem grun_inv ls : forall g g', ginv cfg g -> grun cfg g ls = Some g' -> ginv cfg g'.
+  Theorem grun_inv ls : forall g g', ginv cfgs g -> grun cfgs g ls = Some g' -> ginv cfgs g'.
   Proof.
     induction ls as [|l r IH]; intros g g' Hinv H; simpl in H.
     - inversion H; subst. exact Hinv.
-    - destruct (gstep cfg g l) as [g1|] eqn:E; [|discriminate]. eapply IH; [eapply gstep_inv; eassumption|exact H].
+    - destruct (gstep cfgs g l) as [g1|] eqn:E; [|discriminate]. eapply IH; [eapply gstep_inv; eassumption|exact H].
   Qed.
 
   (* any set of servers with distinct identities, each in a state a boot produces or any other
@@ -792,7 +781,7 @@ Section Main.
     NoDup (map gn_id (g_nodes g)) /\ (forall n, In n (g_nodes g) -> wfr (gn_run n) /\ gn_sess n = None) /\
     g_resps g = [] /\ g_leaders g = [] /\ g_grants g = [].
 
-  Lemma ginit_inv g : ginit_ok g -> ginv cfg g.
+  Lemma ginit_inv g : ginit_ok g -> ginv cfgs g.
   Proof.
     intros (Hnd & Hn & Hr & Hl & Hg). constructor.
     - exact Hnd.
@@ -804,25 +793,55 @@ Section Main.
     - rewrite Hg. intros w T c [].
   Qed.
 
-  (* ELECTION SAFETY *)
-  Theorem election_safety g0 ls g T i i' : NoDup (voters cfg) ->
-    ginit_ok g0 -> grun cfg g0 ls = Some g ->
+  (* ELECTION SAFETY: for elections held under configurations whose majorities pairwise intersect *)
+  Definition quorums_intersect : Prop :=
+    forall c1 c2, In c1 cfgs -> In c2 cfgs -> forall W1 W2,
+      majority (voters c1) W1 -> majority (voters c2) W2 -> exists x, In x W1 /\ In x W2.
+
+  Theorem election_safety_gen g0 ls g T i i' : quorums_intersect ->
+    ginit_ok g0 -> grun cfgs g0 ls = Some g ->
     In (T, i) (g_leaders g) -> In (T, i') (g_leaders g) -> i = i'.
   Proof.
-    intros HV H0 Hrun H1 H2.
+    intros HQ H0 Hrun H1 H2.
     pose proof (grun_inv ls g0 g (ginit_inv g0 H0) Hrun) as Hinv.
-    destruct (gi_leaders cfg g Hinv _ H1) as (W1 & (N1 & I1 & G1) & Q1).
-    destruct (gi_leaders cfg g Hinv _ H2) as (W2 & (N2 & I2 & G2) & Q2).
+    destruct (gi_leaders cfgs g Hinv _ H1) as (c1 & W1 & Hc1 & (N1 & I1 & G1) & Q1).
+    destruct (gi_leaders cfgs g Hinv _ H2) as (c2 & W2 & Hc2 & (N2 & I2 & G2) & Q2).
     simpl in *.
-    pose proof (quorum_size_majority cfg) as Hmaj. cbv zeta in Hmaj.
-    assert (M1 : majority (voters cfg) W1).
-    { split; [exact N1|]. split; [exact I1|]. unfold voters in *. rewrite map_length in *. lia. }
-    assert (M2 : majority (voters cfg) W2).
-    { split; [exact N2|]. split; [exact I2|]. unfold voters in *. rewrite map_length in *. lia. }
-    destruct (majorities_intersect (voters cfg) W1 W2 HV M1 M2) as (w & Hw1 & Hw2).
+    assert (M1 : majority (voters c1) W1).
+    { pose proof (quorum_size_majority c1) as Hm. cbv zeta in Hm.
+      split; [exact N1|]. split; [exact I1|]. unfold voters in *. rewrite map_length in *. lia. }
+    assert (M2 : majority (voters c2) W2).
+    { pose proof (quorum_size_majority c2) as Hm. cbv zeta in Hm.
+      split; [exact N2|]. split; [exact I2|]. unfold voters in *. rewrite map_length in *. lia. }
+    destruct (HQ c1 c2 Hc1 Hc2 W1 W2 M1 M2) as (w & Hw1 & Hw2).
     specialize (G1 w Hw1). specialize (G2 w Hw2).
-    destruct (gi_grant_ids cfg g Hinv _ _ _ G1) as (n & Hn & Hnid).
-    destruct (gi_nodes cfg g Hinv n Hn) as [(_ & _ & Hfun) _]. rewrite Hnid in Hfun.
+    destruct (gi_grant_ids cfgs g Hinv _ _ _ G1) as (n & Hn & Hnid).
+    destruct (gi_nodes cfgs g Hinv n Hn) as [(_ & _ & Hfun) _]. rewrite Hnid in Hfun.
     apply (Hfun T i i'); apply Gof_in; assumption.
   Qed.
 End Main.
+
+(* one configuration *)
+Theorem election_safety cfg g0 ls g T i i' : NoDup (voters cfg) ->
+  ginit_ok g0 -> grun [cfg] g0 ls = Some g ->
+  In (T, i) (g_leaders g) -> In (T, i') (g_leaders g) -> i = i'.
+Proof.
+  intros HV. apply election_safety_gen.
+  intros c1 c2 [<-|[]] [<-|[]] W1 W2 M1 M2. apply (majorities_intersect (voters cfg)); assumption.
+Qed.
+
+(* elections that straddle one membership change: some servers still campaign under the old
+   configuration, others already under the new one (one voter added, removed, promoted or demoted) *)
+Theorem election_safety_across_change cur idx q new g0 ls g T i i' :
+  check_config cur = true -> next_config cur idx q = Some new -> NoDup (voters cur) -> NoDup (voters new) ->
+  ginit_ok g0 -> grun [cur; new] g0 ls = Some g ->
+  In (T, i) (g_leaders g) -> In (T, i') (g_leaders g) -> i = i'.
+Proof.
+  intros Hc Hn HV1 HV2. apply election_safety_gen.
+  intros c1 c2 H1 H2 W1 W2 M1 M2.
+  destruct H1 as [<-|[<-|[]]], H2 as [<-|[<-|[]]].
+  - apply (majorities_intersect (voters cur)); assumption.
+  - eapply next_config_majorities_intersect; eassumption.
+  - destruct (next_config_majorities_intersect cur idx q new W2 W1 Hc Hn M2 M1) as (x & A & B). exists x. auto.
+  - apply (majorities_intersect (voters new)); assumption.
+Qed.
